@@ -49,10 +49,10 @@ def interp(ctx, array_mode=False, opaque=(), extra_policy=None, **kw):
     return Interp(ctx.P, opaque=opaque, policy=std_policy(array_mode, extra_policy), array_mode=array_mode, **kw)
 
 
-def run(ctx, qualname, array_mode=False, opaque=(), args=None, extra_policy=None, **kw):
+def run(ctx, qualname, array_mode=False, opaque=(), args=None, extra_policy=None, parent_args=None, **kw):
     ctx.touch(qualname)
     it = interp(ctx, array_mode, opaque, extra_policy, **kw)
-    return it.run_function(qualname, args=args)
+    return it.run_function(qualname, args=args, parent_args=parent_args)
 
 
 def returns(paths):
@@ -87,4 +87,36 @@ def cmp_decisions(path, sym=None):
         if k[0] in ("ge", "gt", "eq"):
             if sym is None or nf.depends(nf.unkey(k[1]), sym):
                 out.append((k, c, d))
+    return out
+
+
+def positive(p, allow_syms=None):
+    """Sign domain: True if p is certainly > 0 given that every symbol is positive.
+    (sum of positive-coefficient monomials over positive atoms)"""
+    if not p:
+        return False
+    for m, c in p.items():
+        if c <= 0:
+            return False
+        for atom, _e in m:
+            if atom[0] == "sym":
+                if allow_syms is not None and atom[1] not in allow_syms:
+                    return False
+            elif atom[0] in ("const", "E"):
+                continue
+            elif atom[0] == "sum":
+                if not positive(nf.unkey(atom[1]), allow_syms):
+                    return False
+            else:
+                return False
+    return True
+
+
+def pressure_arms(ctx, qual, opaque=(), array_mode=False):
+    """{tuple((key, choice), ...) of the pressure comparisons -> (value, description)} for returning partitions."""
+    paths = returns(run(ctx, qual, array_mode=array_mode, opaque=opaque))
+    out = {}
+    for p in paths:
+        ds = cmp_decisions(p, "pressure")
+        out[tuple((k, c) for k, c, _ in ds)] = (p.value, " & ".join(("" if c else "not ") + d for _k, c, d in ds), p)
     return out
